@@ -191,7 +191,47 @@ def build_request(uni, in_prot, rclass, rng):
         return r
     if kind == 'wsdl':
         return wsdl_request()
+    if kind == 'envelope':
+        return _bad_envelope(uni, in_prot, rclass[1])
     raise ValueError(rclass)
+
+
+def _bad_envelope(uni, in_prot, variant):
+    """Well-formed document, wrong envelope."""
+    import json as _json, yaml as _yaml, msgpack as _msgpack
+    from .universe import NS_SOAP11, NS_SOAP12
+    base = encode_request(uni, in_prot, 'multi', {'a': 3})
+    base.label = ('multi', 'envelope')
+    fam = PROTOCOLS[in_prot][1]
+    if in_prot in ('soap11', 'soap12'):
+        ens = NS_SOAP11 if in_prot == 'soap11' else NS_SOAP12
+        if variant % 2 == 0:
+            body = ('<e:Envelope xmlns:e="%s"><e:Header/></e:Envelope>'
+                                                       % ens).encode()
+        else:
+            body = ('<e:NotAnEnvelope xmlns:e="%s"><e:Body><t:multi xmlns:t='
+                    '"%s"><t:a>3</t:a></t:multi></e:Body></e:NotAnEnvelope>'
+                                               % (ens, uni.tns)).encode()
+        return base.with_body(body)._relabel(base.label)
+    if in_prot == 'msgpackrpc':
+        doc = [0, 1, 'multi'] if variant % 2 == 0 else [7, 1, 'multi', [3]]
+        return base.with_body(_msgpack.packb(doc))._relabel(base.label)
+    if fam == 'dict':
+        doc = {'multi': {'a': 3}, 'noargs': {}} if variant % 2 == 0 \
+                                                    else [{'multi': {'a': 3}}]
+        if in_prot == 'json':
+            body = _json.dumps(doc).encode()
+        elif in_prot == 'yaml':
+            body = _yaml.safe_dump(doc, encoding='utf8')
+        else:
+            if isinstance(doc, dict):
+                doc = dict((k.encode(), v) for k, v in doc.items())
+            body = _msgpack.packb(doc, use_bin_type=True)
+        return base.with_body(body)._relabel(base.label)
+    # xml / httprpc have no envelope: closest thing is an unknown root
+    r = encode_request(uni, in_prot, 'noargs', {}, method_name='no_such_method')
+    r.label = ('no_such_method', 'envelope')
+    return r
 
 
 def _invalid_request(uni, in_prot):
